@@ -186,7 +186,7 @@ fn finish(rep: &Reporter, level: &str, agg: &Agg, scopes: Vec<Value>, complete: 
     a.push("results hold for the enumerated finite families only (<= 5 layers, <= 3 base states / <= 7 capacities / <= 5 vertices)".to_string());
     rep.finish(level, cov, a)
 }
-fn deadline(rep: &Reporter, quick_s: u64, thorough_s: u64) -> Option<Instant> { Some(Instant::now() + Duration::from_secs(if rep.thorough() { thorough_s } else { quick_s })) }
+fn deadline(rep: &Reporter, quick_s: u64, thorough_s: u64) -> Option<Instant> { Some(Instant::now() + Duration::from_secs(cap_secs(if rep.thorough() { thorough_s } else { quick_s }))) }
 
 const W4: [usize; 4] = [1, 2, 3, 64];
 const W3: [usize; 3] = [1, 2, 3];
@@ -422,8 +422,17 @@ fn c15(tier: &str) -> i32 {
     }
     let (agg, scopes, complete) = run_plans(&rep, &["C15"], &plans, deadline(&rep, 45, 1200));
     let (par_cov, par_ok) = crate::sched::c15_parallel_part(&rep);
-    let mut cov = cov_common(&agg, scopes, complete && par_ok);
-    cov["evaluations"] = json!(agg.runs);
+    // the parallel solver with one worker (deterministic) over the long-arc families
+    let pooled_and_fc: Vec<Cfg> = Cfg::full(&W3).into_iter().filter(|c| c.dd != DdKind::Lel).collect();
+    let mk1 = |name: &str, variants: Vec<Variant>, rotate: bool, limit: Option<u64>| Plan { fam: family(name), variants, rotate, cfgs: pooled_and_fc.clone(), mode: Mode::Plain, record: true, limit, par1: true };
+    let la_sp1: Vec<Variant> = variants_sp().into_iter().filter(|v| v.la).collect();
+    let mut p1 = vec![mk1("TM-N0.0irr", variants_irr(), true, None), mk1("TM-N1.0irr", variants_irr(), true, None), mk1("TM-N2.0irr", variants_irr(), true, None), mk1("TM-N3.0irr", variants_irr(), true, None),
+                      mk1("TM-B4irr", variants_irr(), true, Some(if th { 300_000 } else { 20_000 })), mk1("SP-4", la_sp1.clone(), true, Some(if th { 5184 } else { 1500 }))];
+    if th { p1.push(mk1("SP-5", la_sp1, true, Some(50_000))); }
+    let (a1, s1, c1) = run_plans(&rep, &["C15"], &p1, deadline(&rep, 15, 600));
+    let mut cov = cov_common(&agg, scopes, complete && par_ok && c1);
+    cov["parallel_single_worker_part"] = par1_cov(&a1, s1, c1);
+    cov["evaluations"] = json!(agg.runs + a1.runs);
     cov["distinct_nontrivial"] = json!(agg.nontrivial);
     cov["parallel_part"] = par_cov;
     cov["rule"] = json!("sequential part: depth-free table models x ALL irrelevance patterns with <= 3 irrelevant (layer, state) pairs, and set packing models whose is_impacted_by skips states not containing the vertex; every instance x variants x FULL diagram (pooled = long arcs, LEL/frontier = every state expanded on every variable) x cache x fringe x widths; oracle: terminates within the fuel bound, same value as the DP oracle (hence pooled == plain), solution feasible after default completion; non-trivial = runs with >= 2 sub-problems; parallel part: long-arc instances x pooled/frontier configurations, 1-3 workers, all schedules within the pre-emption bound (see parallel_part)");
